@@ -28,24 +28,24 @@ THOROUGH = [
     ("merge(max_concurrent) sync", dict(Ops={"merge_mc"}, MCs={1, 2, 3}, Tabs={"plain", "short", "error", "never"}, Flavours={"sync"})),
     ("merge(max_concurrent) queue order", dict(Ops={"merge_mc"}, MCs={1, 2}, Tabs={"plain", "short"}, Flavours={"cold"}, RG=False)),
     ("merge(max_concurrent) hot", dict(Ops={"merge_mc"}, MCs={1, 2}, Tabs={"pair", "short"}, Flavours={"hot"})),
-    ("long table, 4 inners", dict(Ops={"merge_all", "merge_mc"}, MCs={1, 2, 3}, Tabs={"long"}, Flavours={"cold", "sync"}, MaxOuter=4,
+    ("long table, 4 inners", dict(Ops={"merge_all", "merge_mc"}, MCs={1, 2}, Tabs={"long"}, Flavours={"cold", "sync"}, MaxOuter=4,
                                  OTimes={1, 2, 4}, OTermTimes={2, 4, 9})),
     ("mapped + every mapper table", dict(Ops={"flat_map", "flat_map_indexed", "concat_map"}, Tabs={"error"},
                                          Flavours={"cold", "sync"}, Faults=True, FAll=True, MaxOuter=2)),
     ("mapped + faults", dict(Ops={"flat_map", "flat_map_indexed", "concat_map"}, Tabs={"plain", "never"}, Flavours={"cold", "sync"}, Faults=True)),
     ("merge(sources...)", dict(Ops={"merge_srcs"}, Tabs={"plain", "short", "error", "never", "long"}, Flavours={"cold", "sync", "hot"},
                               RG=False, MaxOuter=3)),
-    ("dispose instants", dict(Ops={"merge_all", "merge_mc", "concat_map"}, MCs={1, 2}, Tabs={"plain", "error"}, Flavours={"cold", "sync"},
+    ("dispose instants", dict(Ops={"merge_all", "merge_mc", "concat_map"}, MCs={2}, Tabs={"plain"}, Flavours={"cold", "sync"},
                               DspTicks={0, 1, 2, 3, 4, 5}, OTermTimes={2, 5})),
     ("outer events at the subscription instant", dict(Ops={"merge_all", "merge_mc", "flat_map"}, MCs={1, 2}, Tabs={"short", "error"},
                                                       Flavours={"cold", "sync"}, OTimes={0, 1, 2}, OTermTimes={0, 1, 3})),
     ("cut by take(k) in the middle of a notification",
-     dict(Ops={"merge_all", "merge_mc", "concat_map", "flat_map"}, MCs={1, 2}, Tabs={"short", "error"}, Flavours={"sync", "cold"},
+     dict(Ops={"merge_all", "merge_mc", "concat_map", "flat_map"}, MCs={1, 2}, Tabs={"short"}, Flavours={"sync", "cold"},
           RG=False, OTimes={0, 1, 2}, OTermTimes={2, 5}, OTerms={"C", "U"}, Takes={1, 2})),
     ("mapper returning a list / constant mapper", dict(Ops={"flat_map", "flat_map_indexed", "concat_map"}, Tabs={"zero"}, Flavours={"cold"},
                                                        Faults=True)),
-    ("generated tables", dict(Ops={"merge_all", "merge_mc"}, MCs={1, 2}, Tabs={"gen"}, Flavours={"cold", "sync"}, MaxOuter=3,
-                              OTimes={1, 2}, OTermTimes={1, 2, 4}, GenN=2, GenLen=2, GenTimes={0, 1})),
+    ("generated tables", dict(Ops={"merge_all", "merge_mc"}, MCs={1}, Tabs={"gen"}, Flavours={"cold", "sync"}, MaxOuter=2,
+                              OTimes={1, 2}, OTermTimes={1, 2, 4}, GenN=2, GenLen=2, GenTimes={0, 1, 2})),
 ]
 SIM = [
     ("simulate: generated tables, 3 inners", dict(Ops={"merge_all", "merge_mc", "flat_map", "concat_map", "flat_map_indexed"}, MCs={1, 2, 3},
@@ -58,7 +58,7 @@ SIM = [
 def run(tier):
     ck = core.Check("C11", tier)
     runs = QUICK if tier == "quick" else THOROUGH
-    lines = mc.export_runs(ck, runs, par=4, named=(tier != "quick"))
+    lines = mc.export_runs(ck, runs, par=4, named=(tier != "quick"), timeout=(600 if tier == "quick" else 3000))
     groups = core.group_allowed(lines)
     ck.exhaustive = True
     ck.note("scenarios_exhaustive", len(groups))
